@@ -19,11 +19,15 @@ ACCESS = {("import", False, False): "access_layers_that", ("imported", False, Fa
           ("imported", True, False): "be_accessed_by_layers_except_layers_that"}
 
 
-def define(layers, render):
-    from pytestarch import LayeredArchitecture
+def define(layers, render, grow=False):
+    from pytestarch import LayeredArchitecture, LayerRule
 
     arch = LayeredArchitecture()
-    for lay in layers:
+    for i, lay in enumerate(layers):
+        if grow and i == 1:
+            # a first rule is created from the architecture while it has only its first layer; the layers added
+            # afterwards belong to the architecture every later rule is based on
+            LayerRule().based_on(arch).layers_that().are_named(layers[0]["name"]).should_not().access_any_layer()
         d = arch.layer(lay["name"])
         rendered = [render(m) for m in lay["listed"]]
         if lay["kind"] == "regex":
@@ -104,7 +108,7 @@ def iter_episode(spec, uid="E", shared=None, events=None):
                 if spec.get("share", True) and dkey in shared:
                     arch = shared[dkey]
                 else:
-                    arch = shared[dkey] = define(it["layers"], render)
+                    arch = shared[dkey] = define(it["layers"], render, grow=bool(spec.get("grow")))
                 def_before = str(arch)
                 try:
                     if it.get("obj") is not None:          # a persistent LayerRule object, re-applied
